@@ -34,7 +34,7 @@ var hostile = []string{
 
 var firingCrons = []string{"* * * * * *", "*/1 * * * * *", "@every 1s", "CRON_TZ=UTC * * * * * *"}
 
-var crons = []string{"* * * * * *", "*/1 * * * * *", "@every 1s", "* * * * *", "0 0 31 2 *", "0 0 30 2 *", "@every 0s", "@every -1s", "@every 100000h", "60 * * * *", "* * * * * * *", "", "bad", "@yearly", "@reboot", "TZ=Nowhere * * * * *", "CRON_TZ=UTC * * * * * *", "TZ=UTC", "CRON_TZ=UTC", "TZ=", "CRON_TZ=x", "*/0 * * * *", "1-0 * * * *", "* * * * 8", "0 0 1 1 * 2099"}
+var crons = []string{"* * * * * *", "*/1 * * * * *", "@every 1s", "* * * * *", "0 0 31 2 *", "0 0 30 2 *", "@every 0s", "@every -1s", "@every 100000h", "60 * * * *", "* * * * * * *", "", "bad", "@yearly", "@reboot", "TZ=Nowhere * * * * *", "CRON_TZ=UTC * * * * * *", "TZ=UTC", "CRON_TZ=UTC", "TZ=", "CRON_TZ=x", "TZ=UTC\t@hourly", "CRON_TZ=UTC\t*\t*\t*\t*\t*", "TZ=UTC\n@daily", "TZ=UTC\u00a0* * * * *", "*/0 * * * *", "1-0 * * * *", "* * * * 8", "0 0 1 1 * 2099"}
 
 // ---------------------------------------------------------------------------
 
